@@ -3,6 +3,8 @@ import SupervisorModel.Model.LogRead
 import SupervisorModel.Model.TailF
 import SupervisorModel.Model.Chunked
 import SupervisorModel.Model.RpcLog
+import SupervisorModel.Model.OutBuf
 def main : IO Unit := Sv.driverMain [
   ("logread", Sv.LogRead.runCase), ("tailf", Sv.TailF.runCase),
-  ("chunkenc", Sv.Chunked.runEnc), ("chunkdec", Sv.Chunked.runDec), ("rpclog", Sv.RpcLog.runCase)]
+  ("chunkenc", Sv.Chunked.runEnc), ("chunkdec", Sv.Chunked.runDec), ("rpclog", Sv.RpcLog.runCase),
+  ("outbuf", Sv.OutBuf.runCase)]
